@@ -95,21 +95,24 @@ func (c Case) Chunks() int {
 	return n
 }
 
-// Structure enumerates every kind sequence of length 0..maxLen after the create, in every
-// chunking into commits, in every variant (variant 2 needs at least two commits).
-func Structure(maxLen int, emit func(Case)) {
+// Structure enumerates every kind sequence of length minLen..maxLen after the create, in every
+// chunking into commits, in each of the given variants (variant 2 needs at least two commits,
+// variant 1 at least two operations).
+func Structure(minLen, maxLen int, variants []int, emit func(Case)) {
 	var rec func(seq []Step)
 	rec = func(seq []Step) {
 		n := len(seq) // including the create
-		for cuts := uint(0); cuts < 1<<uint(n-1); cuts++ {
-			for v := 0; v < 3; v++ {
-				if v == 2 && cuts == 0 {
-					continue
+		if n-1 >= minLen {
+			for cuts := uint(0); cuts < 1<<uint(n-1); cuts++ {
+				for _, v := range variants {
+					if v == 2 && cuts == 0 {
+						continue
+					}
+					if v == 1 && n == 1 {
+						continue // a single operation has a single author
+					}
+					emit(Case{Variant: v, Cuts: cuts, Steps: append([]Step(nil), seq...)})
 				}
-				if v == 1 && n == 1 {
-					continue // a single operation has a single author
-				}
-				emit(Case{Variant: v, Cuts: cuts, Steps: append([]Step(nil), seq...)})
 			}
 		}
 		if n-1 == maxLen {
